@@ -42,7 +42,7 @@ def ident(c):
     return dict(src=bytes(c['src']).decode('latin1'), opts=c['opts'], frag=bool(c['frag']), tmpl=c['tmpl'])
 
 
-# X10 (known finding): with KeepComments a comment that directly follows a tag the minifier drops ends up
+# X10 (known finding): with KeepComments / KeepSpecialComments a kept comment that directly follows a tag the minifier drops ends up
 # under another parent (13.1.2.4 forbids those omissions next to a comment).  Such documents are not run
 # with KeepComments; the pinned witnesses keep the defect visible.
 X10_RE = re.compile(rb'(</(li|dd|dt|td|th|tr|tbody|thead|tfoot|option|rt|rp|rb|rtc|colgroup|optgroup|head|body|html)\s*>'
@@ -51,8 +51,8 @@ X10_RE = re.compile(rb'(</(li|dd|dt|td|th|tr|tbody|thead|tfoot|option|rt|rp|rb|r
 
 def mk(src, opts=0, frag=False, tmpl=0, origin='', pred=None):
     src = src if isinstance(src, (bytes, bytearray)) else src.encode('utf-8')
-    if opts & 1 and origin != 'known' and X10_RE.search(src):
-        opts &= ~1
+    if opts & 3 and origin != 'known' and X10_RE.search(src):
+        opts &= ~3
     return dict(src=b2l(src), opts=opts, frag=frag, tmpl=tmpl, origin=origin, pred=pred)
 
 
@@ -164,6 +164,7 @@ def tree_docs(ctx):
     return docs
 
 
+SPECIAL_COMMENTS = [b'<!--#include file="x" -->', b'<!--[if IE]>x<![endif]-->', b'<!--[if lt IE 9]><b> y </b><![endif]-->']
 DOCTYPE = b'<!doctype html>'   # a conforming document has one; without it the parser is in quirks mode
 
 
@@ -176,8 +177,8 @@ def tree_cases(ctx, docs):
         if not frag:
             src = DOCTYPE + src
             pred = dict((k, DOCTYPE + v) for k, v in pred.items())
-        if opts & 1 and X10_RE.search(src):
-            opts &= ~1
+        if opts & 3 and X10_RE.search(src):
+            opts &= ~3
         k = (src, opts, frag)
         if k in seen:
             return
@@ -197,8 +198,10 @@ def tree_cases(ctx, docs):
         o3 = PAIRWISE8[1 + (i + ctx.seed + 3) % 7]
         # defaults + seeded members of the pairwise-covering family (+ the document reading of a fragment)
         add(src, 0, frag, 'gen:' + name, pred)
-        if b'<!--' in src and (not quick or (i + ctx.seed) % 3 == 0):
-            add(src, 1, frag, 'gen:' + name, pred)            # KeepComments: kept comments must stay in place
+        if b'<!--' in src and (not quick or (i + ctx.seed) % 2 == 0):
+            # kept comments must stay in place: KeepComments, and KeepSpecialComments with SSI / conditional comments
+            add(src, 1, frag, 'gen:' + name, pred)
+            add(src.replace(b'<!--c-->', SPECIAL_COMMENTS[(i + ctx.seed) % 3]), 2, frag, 'gen:' + name, {})
         if quick:
             if (i + ctx.seed) % 4 == 0:
                 add(src, o2, frag, 'gen:' + name, pred)
@@ -502,6 +505,7 @@ def pinned_cases():
 
 def run(ctx):
     exe = vlib.build_harness(ctx, 'c03')
+    vlib._speccopy(ctx)                                # (scratch copy of spec/ made once, before the threads start)
     with ThreadPoolExecutor(max_workers=2) as ex:      # the two generators are independent
         fa = ex.submit(attr_values, ctx)
         docs = tree_docs(ctx)
